@@ -89,3 +89,63 @@ Definition obs_pl_ok (r : result out) (pl : list (N * list N)) : bool :=
             | None => false end
   | _ => true
   end.
+
+(** * C13: the recorded pipeline layout descriptor and the value of [PUSH_CONSTANT_STAGES] (wgpu's ShaderStages bits:
+    VERTEX = 1, FRAGMENT = 2, COMPUTE = 4) against [obs_pc_ranges] on the extracted output *)
+Definition stage_bits (s : stages) : N :=
+  (if st_v s then 1 else 0) + (if st_f s then 2 else 0) + (if st_c s then 4 else 0).
+
+Definition obs_pc_ok (r : result out) (const_bits : option N) (ranges : list (N * N * N)) : bool :=
+  match r with
+  | Ok o =>
+      option_eqb N.eqb (option_map stage_bits (o_pc_stages o)) const_bits
+      && match obs_pc_ranges o with
+         | Some l => list_eqb n3_eqb (map (fun x => (stage_bits (fst (fst x)), snd (fst x), snd x)) l) ranges
+         | None => false
+         end
+  | _ => true
+  end.
+
+(** * C14: what the compiled helpers returned / recorded, against the readings of [Spec/Obs.v] on the extracted output *)
+Definition sss_eqb (a b : string * string * string) : bool :=
+  String.eqb (fst (fst a)) (fst (fst b)) && String.eqb (snd (fst a)) (snd (fst b)) && String.eqb (snd a) (snd b).
+Definition sn3_eqb (a b : string * (N * N * N)) : bool := String.eqb (fst a) (fst b) && n3_eqb (snd a) (snd b).
+Definition ssn_eqb (a b : string * string * N) : bool :=
+  String.eqb (fst (fst a)) (fst (fst b)) && String.eqb (snd (fst a)) (snd (fst b)) && N.eqb (snd a) (snd b).
+
+(** every recorded item is one the output yields and there are as many *)
+Definition same_items {A} (eqb : A -> A -> bool) (model recorded : list A) : bool :=
+  Nat.eqb (length model) (length recorded) && forallb (fun x => existsb (eqb x) model) recorded.
+
+(** per vertex helper: (function, entry point of the returned VertexEntry, per buffer (step mode is Instance, the
+    @location numbers of its attributes)); the probe passes Vertex, Instance, Vertex, .. in parameter order *)
+Definition vbuf_eqb (a b : bool * list N) : bool := Bool.eqb (fst a) (fst b) && list_eqb N.eqb (snd a) (snd b).
+Definition ventry_obs_eqb (a b : string * string * list (bool * list N)) : bool :=
+  String.eqb (fst (fst a)) (fst (fst b)) && String.eqb (snd (fst a)) (snd (fst b)) && list_eqb vbuf_eqb (snd a) (snd b).
+
+Definition vstruct_locations (o : out) (s : string) : option (list N) :=
+  option_map (fun vs => map va_location (vs_attrs vs)) (find (fun vs => String.eqb (vs_name vs) s) (o_vstructs o)).
+
+Definition ventry_reading (o : out) (v : out_ventry) : option (string * string * list (bool * list N)) :=
+  match obs_vertex_entry o v with
+  | Some (fn, ep, bufs) =>
+      option_map (fun bs => (fn, ep, bs))
+        (omapM (fun b : string * N => option_map (fun locs => (N.odd (snd b), locs)) (vstruct_locations o (fst b))) bufs)
+  | None => None
+  end.
+
+Definition obs_entries_ok (r : result out)
+    (consts : list (string * string))                        (* every ENTRY_ constant and its value *)
+    (computes : list (string * string * string))             (* create_<e>_pipeline: label, entry point of the recorded descriptor *)
+    (wgs : list (string * (N * N * N)))                      (* <E>_WORKGROUP_SIZE values *)
+    (frags : list (string * string * N))                     (* <e>_entry: entry point, targets.len() *)
+    (verts : list (string * string * list (bool * list N))) : bool :=
+  match r with
+  | Ok o =>
+      same_items ss_eqb (o_entry_consts o) consts
+      && same_items sss_eqb (map obs_compute (o_compute o)) computes
+      && same_items sn3_eqb (map obs_workgroup (o_compute o)) wgs
+      && match omapM (obs_fragment_entry o) (o_fentries o) with Some l => same_items ssn_eqb l frags | None => false end
+      && match omapM (ventry_reading o) (o_ventries o) with Some l => same_items ventry_obs_eqb l verts | None => false end
+  | _ => true
+  end.
